@@ -40,6 +40,12 @@
  *     the model at the ABSOLUTE position: byte j of the data is XORed with
  *     byte 16*<startblock>+j of the keystream.  Flag t: a second stream
  *     object, moved to the same block, encrypts the output again in one call.
+ *
+ * Separate mode, one history per process (no line protocol on stdin):
+ *  c02 oomhist <k> <spec> [<seed>]       -> R n=.. nf=.. bad=.. ev=..
+ *     the k-th allocation attempt of the library fails once during the
+ *     history <spec> (key expansions, crypto_aes_can_use_intrinsics, blocks,
+ *     CTR streams); see common/aes_oomhist.h.
  */
 #define _GNU_SOURCE	/* memfd_create */
 #include "vh.h"
@@ -54,6 +60,7 @@
 #include "crypto_aesctr.h"
 #include "refaes.h"
 #include "wrapalloc.h"
+#include "aes_oomhist.h"
 
 /*
  * Every other case (decided by a hash of the case line, so a replayed line
@@ -519,7 +526,7 @@ huge_region(int fill)
 }
 
 int
-main(void)
+main(int argc, char ** argv)
 {
 	struct vh_line L = {0};
 	int rc;
@@ -527,6 +534,15 @@ main(void)
 	vh_stdout_linebuf();
 	if ((rc = refaes_selftest()) != 0)
 		vh_die("refaes self-test failed at step %d", rc);
+	/*
+	 * c02 oomhist <k> <spec> [<seed>]: one "an allocation fails, then
+	 * memory is back" history in this (fresh) process; common/aes_oomhist.h.
+	 */
+	if (argc > 1) {
+		if (strcmp(argv[1], "oomhist") != 0)
+			vh_die("bad argument '%s'", argv[1]);
+		return (aes_oomhist_main(argc, argv, 1, NULL));
+	}
 	while (vh_readline(&L, stdin)) {
 		const char * op;
 
